@@ -14,7 +14,7 @@ RULE = ("netlist documents from the shared generator: 1-6 modules mixing soft (s
         "field by field with ==; n2.write_yaml() == t; writing twice gives the same text. "
         "non-trivial = at least 2 modules of different kinds and at least one net; distinct = distinct model.")
 ASSUMPTIONS = [
-    "numbers are compared with == (the dumper writes repr, the reader parses it back exactly)",
+    "stored numbers are compared with == (the dumper writes repr, the reader parses it back exactly); quantities the reader derives from the rectangles (centre of a module with rectangles, area of a hard module) with 1e-12 relative, because recognition may reorder the rectangles and float sums depend on the order",
     "the generated documents are all accepted by the reader (checked: a rejection of a generated document is reported as a harness error)",
 ]
 
@@ -27,6 +27,16 @@ def mod_fields(m):
         aspect_ratio=None if m.aspect_ratio is None else (m.aspect_ratio.min_wh, m.aspect_ratio.max_wh),
         rectangles=[(r.center.x, r.center.y, r.shape.w, r.shape.h, r.region, r.fixed, r.hard, r.location.name) for r in m.rectangles],
     )
+
+
+def _close(x, y):
+    if isinstance(x, dict) and isinstance(y, dict):
+        return set(x) == set(y) and all(_close(x[k], y[k]) for k in x)
+    if isinstance(x, tuple) and isinstance(y, tuple):
+        return len(x) == len(y) and all(_close(p, q) for p, q in zip(x, y))
+    if isinstance(x, (int, float)) and isinstance(y, (int, float)):
+        return abs(x - y) <= 1e-12 * max(abs(x), abs(y), 1e-300)
+    return x == y
 
 
 def net_fields(e):
@@ -65,6 +75,11 @@ def run_roundtrip(c):
     for a, b in zip(before[0], after[0]):
         for k in a:
             if a[k] != b[k]:
+                # quantities DERIVED from the rectangles (centre of a module with rectangles, area of a hard module) are
+                # re-computed by the reader from a list whose order recognition may have changed: equal up to rounding
+                derived = a["rectangles"] and (k == "center" or (a["hard"] and k in ("area", "area_regions")))
+                if derived and _close(a[k], b[k]):
+                    continue
                 raise Violation("module %s: %s was %r, after write+read it is %r\n%s" % (a["name"], k, a[k], b[k], t),
                                 "field-" + k)
     if before[1] != after[1]:
